@@ -92,7 +92,15 @@ def check_predictor(ctx, res, p, pred, est, X, fitted_raw, latent, label):
     delta = raw - fitted_raw
     # absolute rounding floor: mu + sum(k w) and, for Exp predictors, log(exp(v)) of the fitted values
     afloor = 64 * EPS * (1.0 + abs(mu) + float(np.max(np.abs(fitted_raw))))
-    if "Cholesky" in cls:
+    # the rule follows the model TYPE the estimator resolved to, not the class of the predictor it happened to build:
+    # inducing-point Cholesky models (sparse_cholesky, fixed) must reproduce the fitted values to float accuracy
+    gp_name = str(getattr(est, "gp_type", "")).split(".")[-1].upper()
+    tight_type = gp_name in ("SPARSE_CHOLESKY", "FIXED")
+    res.count("rule=" + ("float-accuracy" if (tight_type or "Cholesky" in cls) else "jitter-proportional"))
+    if tight_type and "Cholesky" not in cls:
+        res.oracle_fail(f"{label}: gp_type {gp_name.lower()} did not build the Cholesky-latent predictor ({cls})", p,
+                        signature="C02:class-for-type")
+    if "Cholesky" in cls or tight_type:
         if est.Lp is not None:
             Lp = np.asarray(est.Lp, float)
         else:
